@@ -284,7 +284,7 @@ fn dump_body<'tcx>(tcx: TyCtxt<'tcx>, did: DefId, kind: DefKind, body: &mir::Bod
             }
             write!(
                 out,
-                "{{\"k\":\"fn\",\"path\":{},\"name\":{},\"kind\":\"{}\",\"argc\":{},\"vis\":{},\"tc\":{},\"loc\":{},\"exp\":{},\"impl_exp\":{},\"self_ty\":{},\"trait\":{},\"generics\":[{}],\"locals\":[",
+                "{{\"k\":\"fn\",\"path\":{},\"name\":{},\"kind\":\"{}\",\"argc\":{},\"vis\":{},\"tc\":{},\"end\":{},\"loc\":{},\"exp\":{},\"impl_exp\":{},\"self_ty\":{},\"trait\":{},\"generics\":[{}],\"locals\":[",
                 q(&format!("{}{}", raw_path(tcx, did), suffix)),
                 q(&format!("{}{}", pretty(tcx, did), suffix)),
                 match kind {
@@ -300,6 +300,10 @@ fn dump_body<'tcx>(tcx: TyCtxt<'tcx>, did: DefId, kind: DefKind, body: &mir::Bod
                 body.arg_count,
                 q(&vis),
                 track,
+                {
+                    let sp = body.span.source_callsite();
+                    tcx.sess.source_map().lookup_char_pos(sp.hi()).line
+                },
                 q(&loc(tcx, body.span)),
                 expn(body.span),
                 impl_exp,
